@@ -10,6 +10,7 @@ Oracle: recursive byte-wise comparison of source and destination restricted to t
 """
 import itertools
 import os
+import zlib
 import shutil
 import tempfile
 
@@ -267,7 +268,7 @@ def all_cases(tier):
     out = []
     for c in cases:
         for kind in ("pattern", "zeros", "zero-tail", "newlines"):
-            if kind != "pattern" and tier == "quick" and c[1] != "F" and hash((c[1], c[2])) % 3:
+            if kind != "pattern" and tier == "quick" and c[1] != "F" and zlib.crc32(repr((c[1], c[2])).encode()) % 3:
                 continue
             out.append(c + (kind,))
             # transfers onto an existing destination (a second upload / download of a tree whose files shrank)
